@@ -481,6 +481,23 @@ RunConsensus(D, h) ==
 
 InsertAndRun(D, h, e) == RunConsensus(D, InsertEvent(D, h, e))
 
+\* Insertions batched between consensus passes (not what a node does - core.sync
+\* runs the passes after every event - but what the public Hashgraph API allows):
+\* k events are inserted, then one pass; k = 0: everything first, one pass at the
+\* end.  InsertEvent's first-descendant walk (WalkFD) stops at ancestors that are
+\* witnesses; an ancestor that has not been through DivideRounds yet is not known
+\* to be one, so a batched insertion walks further down than a per-event one and
+\* strongly-see can differ (known finding C03/batched-consensus-passes).
+RECURSIVE InsertSeq(_, _, _)
+InsertSeq(D, h, es) ==
+    IF es = << >> THEN h ELSE InsertSeq(D, InsertEvent(D, h, Head(es)), Tail(es))
+
+RECURSIVE BatchedRun(_, _, _, _)
+BatchedRun(D, h, es, k) ==
+    IF es = << >> THEN h
+    ELSE IF k = 0 \/ Len(es) <= k THEN RunConsensus(D, InsertSeq(D, h, es))
+    ELSE BatchedRun(D, RunConsensus(D, InsertSeq(D, h, SubSeq(es, 1, k))), SubSeq(es, k + 1, Len(es)), k)
+
 RECURSIVE InsertAllAndRun(_, _, _)
 InsertAllAndRun(D, h, es) ==
     IF es = << >> THEN h
